@@ -6,7 +6,9 @@ from . import runlib as R
 # boundary-rich operand set named by the property
 V17 = [b"", b"\x80", b"\x00", b"\x01", b"\x81", b"\x7f", b"\xff", b"\x80\x00", b"\x80\x80", b"\xff\x00", b"\xff\x80",
        b"\x00\x01", b"\x00\x81", b"\xff\xff\xff\x7f", b"\xff\xff\xff\xff", b"\x02", b"\x03", b"\x05", b"\x06", b"\x3f", b"\x40",
-       b"\x41", b"abc", b"\x01\x02\x03\x04\x05", b"\x00\x00\x00\x80\x00", b"\xff\xff\xff\xff\x7f", b"\xff\xff\xff\xff\xff"]
+       b"\x41", b"abc", b"\x01\x02\x03\x04\x05", b"\x00\x00\x00\x80\x00", b"\xff\xff\xff\xff\x7f", b"\xff\xff\xff\xff\xff",
+       # 5-byte numbers at and above 2^32 whose low 32 bits are small (a count / divisor / factor narrowed to 32 bits would look harmless)
+       b"\x00\x00\x00\x00\x01", b"\x04\x00\x00\x00\x01", b"\x10\x00\x00\x00\x02", b"\x3e\x00\x00\x00\x01", b"\x01\x00\x00\x00\x81", b"\x00\x01", b"\xff\x7f"]
 
 
 def lines(ctx):
